@@ -10,7 +10,8 @@ package harness
 // WithTransferAgents and the internal fee-grant flag; then the real
 // MarkerKeeper.SendRestrictionFn is called and its error mapped to a class by the table
 // below.  `bank` lines run the same movement through the real BankKeeper.SendCoins /
-// InputOutputCoinsProv and report whether balances moved.
+// InputOutputCoinsProv (and DelegateCoinsFromAccountToModule when the receiver is a staking pool)
+// and report whether balances moved.
 //
 // The abstract configuration space is walked systematically: a mixed-radix index over
 // (sender kind × receiver kind × ctx bypass × fee grant × #agents × primary denom slot incl.
@@ -314,6 +315,14 @@ func (e *mkrsendEnv) execBank(ws []string) string {
 	f0, t0 := bal()
 	via := kvArg(ws, "via")
 	opErr, panicked := Try(ctx, func(c sdk.Context) error {
+		if via == "delegate" {
+			// the staking route: DelegateCoinsFromAccountToModule -> DelegateCoins (applies the restriction)
+			pool := map[string]string{"bp:bonded": "bonded_tokens_pool", "bp:notbonded": "not_bonded_tokens_pool"}[kvArg(ws, "to")]
+			if pool == "" {
+				return fmt.Errorf("delegate: receiver is not a staking pool")
+			}
+			return bk.DelegateCoinsFromAccountToModule(c, from, pool, coins)
+		}
 		if via == "inout" {
 			return bk.InputOutputCoinsProv(c,
 				[]banktypes.Input{{Address: from.String(), Coins: coins}},
@@ -775,6 +784,9 @@ func mkrsendDrive(t *testing.T, rng *RNG, n int, out *Out) {
 			via := "send"
 			if (i/6)%2 == 1 {
 				via = "inout"
+			}
+			if strings.Contains(fields, " to=bp:bonded ") || strings.Contains(fields, " to=bp:notbonded ") {
+				via = "delegate"
 			}
 			bres := emit("bank " + fields + " via=" + via)
 			out.Count("op:bank/" + via)
